@@ -60,6 +60,30 @@ fn beacons_are_recovered_exactly() {
             }
         }
     }
+    // several beacons in one text ("several beacons per text"): every one is recovered, in order - for 400 passwords (about 1 in 62 has
+    // markers that share a boundary character), directly concatenated and separated by other text
+    let pa = vec![SocketAddr::from_str("1.2.3.4:5678").unwrap(), SocketAddr::from_str("6.6.6.6:53").unwrap()];
+    let pb = vec![SocketAddr::from_str("9.8.7.6:1000").unwrap()];
+    for pwn in 0..400u32 {
+        let pw = format!("c17-{}", pwn);
+        let ser = BeaconSerializer::<MockTimeSource>::new(pw.as_bytes());
+        MockTimeSource::set_time(2000 * 3600);
+        let (ta, tb) = (ser.encode(&pa), ser.encode(&pb));
+        let lost = |t: &str, n: usize| from_base62(&t[5..t.len() - 5]).map(|b| b.len()).unwrap_or(0) < n;
+        if lost(&ta, 2 + 1 + 12 + 1) || lost(&tb, 2 + 1 + 6 + 1) { continue; }
+        if ser.decode(&ta, None) != pa || ser.decode(&tb, None) != pb { continue; }   // (single beacons are checked above)
+        let mut expected = pa.clone(); expected.extend(pb.iter().cloned());
+        // (also OVERLAPPING markers: where the end marker's last character is the begin marker's first, the two beacons may share it)
+        let mut texts: Vec<String> = ["", " and ", "-"].iter().map(|sep| format!("{}{}{}", ta, sep, tb)).collect();
+        if ta.chars().last() == tb.chars().next() { texts.push(format!("{}{}", ta, &tb[1..])); }
+        for text in texts.iter() {
+            let back = ser.decode(&text, None);
+            if back != expected {
+                failing += 1;
+                if failing <= 3 { println!("FAILING-INPUT: beacon password {:?} (markers {:?} / {:?}): two beacons in one text {:?} decode to {:?}, expected {:?}", pw, ser.begin(), ser.end(), text, back, expected); }
+            }
+        }
+    }
     println!("checked {} beacons, skipped {} (known finding)", checked, skipped);
     if checked < 2000 { failing += 1; println!("FAILING-INPUT: only {} beacons could be checked", checked); }
     assert_eq!(failing, 0);
